@@ -17,7 +17,6 @@ var errClasses = []struct{ needle, class string }{
 	{"unknown group", "unknown-group"},
 	{"duplicate key", "duplicate-key"},
 	{"Duplicate node", "duplicate-node"},
-	{"augment", "augment-not-found"},
 	{"bad range", "bad-range"},
 	{"bad length", "bad-length"},
 	{"negative length", "negative-length"},
@@ -81,6 +80,11 @@ func ErrClass(msg string) (string, int, int, string) {
 		rest = msg[len(m[0]):]
 	}
 	cls := "other"
+	// "<pos>: augment <path> not found" / "<pos>: augment <path>: target <kind> cannot have child nodes"
+	// (matched on the message shape, not on the bare word, which also occurs in module names)
+	if strings.HasPrefix(rest, "augment ") && (strings.HasSuffix(rest, " not found") || strings.Contains(rest, " cannot have child nodes")) {
+		return file, line, col, "augment-not-found"
+	}
 	for _, c := range errClasses {
 		if strings.Contains(rest, c.needle) {
 			cls = c.class
